@@ -48,8 +48,10 @@ def conv_calls(tier, rng):
     if tier == "thorough":
         starts += [datetime(2026, 3, 29, 1, 0), datetime(2021, 1, 1, 0, 0, 30)]
     calls = []
-    for g in (60, 300, 900, 1800, 3600):
+    for g in (60, 300, 900, 1800, 3600, 420, 1500):          # 7 and 25 minutes do not divide a day
         spans = [g, 3 * g, 3 * g + 1, 3 * g + g // 2, 10 * g - 1, 7200, 86400]
+        if g in (420, 1500):
+            spans = [3 * g + 1, 86400 + 5 * g, 2 * 86400 + 7 * g - 60]      # indices more than one and two days from the start
         if tier == "thorough":
             spans += [86400 + g // 3, 3 * 86400, 2 * g - 1, 5 * g + 59]
         for span in sorted(set(spans)):
@@ -84,6 +86,11 @@ def conv_calls(tier, rng):
                 for x in [i for i in idxs if 0 <= i < size]:
                     r = both(lambda: secs(start, p.idxToDate(x)))
                     calls.append(dict(op="pi2d", g=g, span=span, x=x, **r))
+                # instants before the project start (a pinned start or a leave may lie there): both implementations must agree
+                for t in (-1, -g // 2, -g + 1, -g, -g - 1, -3 * g - g // 3, -86400 - 7):
+                    d = start + timedelta(seconds=t)
+                    r = both(lambda: p.dateToIdx(d))
+                    calls.append(dict(op="pd2ix", g=g, span=span, x=t, **r))
     return calls
 
 
